@@ -14,3 +14,14 @@ Check Props.C02.C02_handler_answers_own_message :
 Check Props.C02.C02_response_written_once :
   forall tr s s' o p v, run s tr = Acc s' -> ops s o = Some p -> op_k p <> XPing -> op_slot p = SVal v ->
   exists p', ops s' o = Some p' /\ op_slot p' = SVal v.
+Check Props.C02.C02_waiting_call_is_queued_or_running :
+  forall tr s o p, run init tr = Acc s -> ops s o = Some p -> op_slot p = SOpen ->
+  exists x, actors s (op_a p) = Some x
+    /\ (In (PTask o) (a_queue x) \/ exists dl, a_phase x = PhHandle o dl).
+Check Props.C02.C02_dead_target_resolves :
+  forall tr s o p x, run init tr = Acc s -> ops s o = Some p -> op_done p = false -> op_k p <> XReg ->
+  actors s (op_a p) = Some x -> a_phase x = PhDone -> ret_expect p x o <> None.
+Check Props.C02.C02_nothing_hangs_on_a_dead_actor :
+  forall tr s s', run init tr = Acc s -> step s EvQuiesce = Acc s' ->
+  forall o p x, ops s o = Some p -> op_k p <> XReg -> op_reg p = None ->
+  actors s (op_a p) = Some x -> a_phase x = PhDone -> op_done p = true.
